@@ -176,6 +176,16 @@ Definition scaled_values (maximize : bool) (vals : list Q) (fails : list bool) :
       map (fun vf : Q * bool => if snd vf then rel lie else rel (fst vf)) (combine vals fails)
   end.
 
+(* the history in which the value STORED with every failed observation is replaced by the corresponding entry of `junk`
+   (an observation reported as failed still carries some number - a placeholder, a sentinel such as 1e30, whatever the client
+   sent); successes keep their values; where `junk` runs out the stored value stays.  Used to state that the endpoint never
+   reads those numbers. *)
+Fixpoint overwrite (fails : list bool) (vals junk : list Q) : list Q :=
+  match fails, vals with
+  | f :: fs, v :: vs => (if f then hd v junk else v) :: overwrite fs vs (tl junk)
+  | _, _ => vals
+  end.
+
 (* ---------------------------------------------------------------- MultisolutionBestAssignments.view *)
 (* extended values: a finite double or +inf.  `vltb a b` is the IEEE comparison a < b (inf < inf is false). *)
 Inductive xv := PInf | Val (q : Q).
